@@ -520,8 +520,9 @@ func checkC09(w *World, r *Report) {
 	}
 	checkForwardLoop(w, r, es, a, "C09.R4")
 	importRules(w, r, checkC12, "C12", "C09.R4", func(o *Obligation) bool { return o.Rule == "C12.R2" || o.Rule == "C12.R3" })
-	r.Rule("C09.R6", "no path publishes two dead letters for one send", 3)
+	r.Rule("C09.R6", "no path publishes two dead letters for one send; a send never runs the receiver on the caller's goroutine", 4)
 	checkSingleDeadLetter(w, r, "C09.R6")
+	checkSchedulerAsync(w, r, "C09.R6")
 	if w.mayDo(es, EvCall("BroadcastEvent", a.eBroadcast), 0) {
 		r.Fail("C09.R5", "eventStream.Receive->BroadcastEvent", "forwarding an event can never synchronously publish another event", w.fnPos(es),
 			"call path eventStream.Receive -> Context.Forward -> SendWithSender -> send -> SendLocal[registry miss] -> BroadcastEvent: a subscriber that stopped without unsubscribing turns every event into a dead letter, which is itself an event")
@@ -762,6 +763,7 @@ func checkC10(w *World, r *Report) {
 		}
 		r.Check(okG, "C10.R5", fname(a.regGet)+":looks-up-pid.ID", "get looks the process up by pid.ID", w.fnPos(a.regGet), "get does not look up lookup[pid.ID]")
 	}
+	checkOptionStores(w, r, "C10.R5", "WithID", "ID", "FV:id")
 	// R6: the id is released when the actor stops (even if its Stopped handler panics)
 	r.Rule("C10.R6", "the stop function unregisters the actor on every path, before Stopped is delivered", 1)
 	if pr := w.findProcRoles(); !pr.fail(r, "C10.R6") {
